@@ -1684,16 +1684,23 @@ class Frame {
   size_t offset;
   // The running maximum size of the frame.
   size_t size;
+  // The highest offset reached since the peak was last set, used to place
+  // outgoing parameters below every temporary that is live while the actuals
+  // of a call are loaded.
+  size_t peak;
   // Exit label.
   std::string exitLabel;
 
 public:
-  Frame(std::string exitLabel) : offset(0), size(0), exitLabel(exitLabel) {}
+  Frame(std::string exitLabel) : offset(0), size(0), peak(0), exitLabel(exitLabel) {}
   int getSize() { return size; }
   void incOffset(int amount) {
     offset += amount;
     size = std::max(size, offset); // +1 since it's an offset?
+    peak = std::max(peak, offset);
   }
+  size_t getPeak() { return peak; }
+  void setPeak(size_t value) { peak = value; }
   void decOffset(int amount) {
     offset -= amount;
   }
@@ -2536,10 +2543,11 @@ public:
     }
   }
 
-  /// Generate actual parameters that contain calls.
+  /// Generate actual parameters that contain calls. The frame offset is left
+  /// just past the saved results, so that temporaries used while the remaining
+  /// actuals are evaluated cannot overwrite them.
   void genCallActuals(const std::vector<std::unique_ptr<Expr>> &args,
                       const std::string &currentScope) {
-    size_t stackOffset = currentFrame->getOffset();
     for (auto &arg : args) {
       if (containsCall(arg)) {
         // For each actual expression containing one or more calls, allocate a
@@ -2552,13 +2560,12 @@ public:
         currentFrame->incOffset(1);
       }
     }
-    // Restore the stack pointer offset so loadActuals can sequence through
-    // the call actual locations again.
-    currentFrame->setOffset(stackOffset);
   }
 
+  /// Load the actual parameters into their slots. savedOffset is the frame
+  /// offset of the first result saved by genCallActuals.
   void loadActuals(const std::vector<std::unique_ptr<Expr>> &args, size_t parameterOffset,
-                   const std::string &currentScope) {
+                   const std::string &currentScope, size_t savedOffset) {
     size_t parameterIndex = parameterOffset;
     for (auto &arg : args) {
       if (containsCall(arg)) {
@@ -2566,8 +2573,8 @@ public:
         // expression value saved to a temporary stack location and store it
         // to the actual parameter location.
         genLDAM(SP_OFFSET);
-        genLDAI_FB(currentFrame, -currentFrame->getOffset());
-        currentFrame->incOffset(1);
+        genLDAI_FB(currentFrame, -savedOffset);
+        savedOffset++;
         genLDBM(SP_OFFSET);
         genSTAI(parameterIndex);
       } else {
@@ -2581,13 +2588,25 @@ public:
     }
   }
 
+  /// Generate the actuals of a call and reserve the link, return value and
+  /// parameter slots below every temporary used while evaluating them.
+  void genActuals(const std::vector<std::unique_ptr<Expr>> &args, size_t parameterOffset,
+                  const std::string &currentScope) {
+    auto stackOffset = currentFrame->getOffset();
+    genCallActuals(args, currentScope);
+    // The remaining actuals contain no calls, so this is the only place the
+    // peak is in use.
+    currentFrame->setPeak(currentFrame->getOffset());
+    loadActuals(args, parameterOffset, currentScope, stackOffset);
+    currentFrame->setOffset(currentFrame->getPeak());
+    currentFrame->incOffset(args.size() + parameterOffset);
+  }
+
   void genSysCall(int syscallId, const std::vector<std::unique_ptr<Expr>> &args,
                   const std::string &currentScope) {
     auto stackOffset = currentFrame->getOffset();
     // Actual parameters.
-    genCallActuals(args, currentScope);
-    loadActuals(args, FB_PARAM_OFFSET_FUNC, currentScope);
-    currentFrame->incOffset(args.size() + FB_PARAM_OFFSET_FUNC);
+    genActuals(args, FB_PARAM_OFFSET_FUNC, currentScope);
     // Perform syscall.
     genLDAC(syscallId);
     genOPR(hexasm::Token::SVC);
@@ -2601,9 +2620,7 @@ public:
                    const std::string &currentScope) {
     auto stackOffset = currentFrame->getOffset();
     // Actual parameters.
-    genCallActuals(args, currentScope);
-    loadActuals(args, FB_PARAM_OFFSET_FUNC, currentScope);
-    currentFrame->incOffset(args.size() + FB_PARAM_OFFSET_FUNC);
+    genActuals(args, FB_PARAM_OFFSET_FUNC, currentScope);
     // Branch and link.
     auto linkLabel = getLabel();
     genLDAP(linkLabel);
@@ -2619,9 +2636,7 @@ public:
                    const std::string &currentScope) {
     auto stackOffset = currentFrame->getOffset();
     // Actual parameters.
-    genCallActuals(args, currentScope);
-    loadActuals(args, FB_PARAM_OFFSET_PROC, currentScope);
-    currentFrame->incOffset(args.size() + FB_PARAM_OFFSET_PROC);
+    genActuals(args, FB_PARAM_OFFSET_PROC, currentScope);
     // Branch and link.
     auto linkLabel = getLabel();
     genLDAP(linkLabel);
